@@ -281,8 +281,14 @@ func (g *genCtx) cacheOp(mx mixWeights, hot int, filler *int) Op {
 	ws := []int{mx.load, mx.store, mx.loadOrStore, mx.loadAndStore, mx.loadOrCompute, mx.compute, mx.loadAndDelete, mx.del, mx.clear, mx.rng, mx.filler, mx.size, mx.getExp, mx.getTTL, mx.refresh, mx.delExpired, mx.setDef, mx.setCB}
 	switch g.pick(ws) {
 	case 16:
+		if g.r.Bool(0.3) {
+			return Op{K: CDefaultExpiration} // the getter
+		}
 		return Op{K: CSetDefaultExpiration, D: g.ttl()}
 	case 17:
+		if g.r.Bool(0.3) {
+			return Op{K: CDefaultExpiration, N: 1} // both getters: DefaultExpiration() and EvictedCallback()
+		}
 		return Op{K: CSetCallback, N: g.r.Intn(2)}
 	case 0:
 		return Op{K: CGet, Key: k}
@@ -438,7 +444,7 @@ func genConc(prop string, seed uint64, tier string) *ConcScenario {
 	}
 	if cacheFam && (prop == "C06" || g.r.Bool(0.3)) {
 		sc.CBKind = 1
-		if prop == "C13" || (prop == "C06" && g.r.Bool(0.2)) {
+		if prop == "C13" || (prop == "C06" && g.r.Bool(0.2)) || (prop == "C02" && g.r.Bool(0.3)) {
 			sc.CBKind = 2
 		}
 		sc.Ctor.CB = g.r.Bool(0.5)
